@@ -54,29 +54,15 @@ def string_escapes(rule, crate, dialect):
                                "the printer writes byte 0x%02X as %r but the %s reader maps `\\%s` to %s: strings "
                                "containing it do not round-trip" % (b, text, dialect, chr(letter), _desc(out)))
             continue
-        # hex forms:  \xHH;  (r6rs)   \u00HH  (elisp)
-        if dialect == "r6rs":
-            shape_ok = len(text) == 5 and letter == 0x78 and text[4] == 0x3B
-            dec = "parse::read::decode_r6rs_hex_escape"
-            digits = text[2:4]
-        else:
-            shape_ok = len(text) == 6 and letter == 0x75 and text[2:4] == b"00"
-            dec = "parse::read::decode_elisp_uni_escape"
-            digits = text[4:6]
-        calls_dec = _calls(out, dec if dialect == "r6rs" else "parse::read::parse_elisp_uni_char_escape")
-        hx = crate.static_bytes("parse::read::HEX")
-        val = None
-        if hx and len(digits) == 2 and hx[digits[0]] != 255 and hx[digits[1]] != 255:
-            val = (hx[digits[0]] << 4) + hx[digits[1]]
-        df = crate.fn(dec)
-        dshape = df is not None and tables.decoder_shape(df, 4)
-        if shape_ok and calls_dec and okh and val == b and dshape and b < 0x80:
-            rule.ok("0x%02X -> %r -> hex decoder (HEX inverts HEX_DIGITS, n = (n << 4) + digit) -> 0x%02X" % (b, text, b))
+        # hex forms (\xHH; / \u00HH): the reader's escape function is evaluated on the exact text the printer wrote
+        res = tables.escape_text_pushes(crate, reader, text[1:])
+        want = bytes([b]) if b < 0x80 else chr(b).encode("utf-8")
+        if res == ("push", want):
+            rule.ok("0x%02X -> %r -> the reader's escape decoding pushes %r" % (b, text, want))
         else:
             rule.violation(reader, "escape-mismatch:0x%02X" % b,
-                           "the printer writes byte 0x%02X as %r; reading it back needs: recognised form (%s), `\\%s` "
-                           "reaching the hex decoder (%s), digit tables inverse (%s), digits decode to %s, decoder shape "
-                           "n=(n<<4)+d (%s)" % (b, text, shape_ok, chr(letter), calls_dec, whyh, val, dshape))
+                           "the printer writes byte 0x%02X as %r; the %s reader decodes that text to %s instead of %r: "
+                           "strings containing it do not round-trip" % (b, text, dialect, _desc(res) if res[0] != "push" else repr(res[1]), want))
     return n_esc
 
 
